@@ -33,7 +33,7 @@ plan('C19',
      rule='cases are (day, time-of-day) instants, offsets, or generated strings; an instant is non-trivial when it is a distinct calendar day '
           '(hash = day number), an offset case when the offset differs, a junk string when its bytes differ',
      jobs=[
-         FuzzJob('fz_date', quick=200000, thorough=6000000, procs=(4, 12), max_len=120),
+         FuzzJob('fz_date', quick=200000, thorough=2000000, procs=(4, 12), max_len=120),
          Job('c19_date', 'days', 'plain', quick=2040, thorough=14266, shards=(16, 16), params=dict(stride=7, blk=256, dump=1), tparams=dict(stride=1)),
          Job('c19_date', 'days', 'asan', quick=286, thorough=2854, shards=(8, 16), params=dict(stride=50, blk=256), tparams=dict(stride=5), tag='c19.days'),
          Job('c19_date', 'edges', 'plain', quick=9999, thorough=9999, shards=(8, 8)),
